@@ -88,14 +88,24 @@ pub struct RawMsg<'a> {
 }
 
 impl<'a> RawMsg<'a> {
+    // the payload bytes in `range`, or an error if the message is too short to contain them
+    fn payload(&self, range: std::ops::Range<usize>) -> Result<&'a [u8]> {
+        self.bytes.get(range).ok_or_else(|| {
+            super::Error(format!(
+                "message too short for its type: ({}, {}, {})",
+                self.typ, self.len, self.sid
+            ))
+        })
+    }
+
     /// For predefined messages, get u32s separately for convenience
     pub(crate) unsafe fn get_u32s(&self) -> Result<&'a [u32]> {
         use std::mem;
         match self.typ {
-            create::CREATE => Ok(mem::transmute(&self.bytes[0..(4 * 6)])),
-            measure::MEASURE => Ok(mem::transmute(&self.bytes[0..8])),
-            update_field::UPDATE_FIELD => Ok(mem::transmute(&self.bytes[0..4])),
-            ready::READY => Ok(mem::transmute(&self.bytes[0..(4 * 1)])),
+            create::CREATE => Ok(mem::transmute(self.payload(0..(4 * 6))?)),
+            measure::MEASURE => Ok(mem::transmute(self.payload(0..8)?)),
+            update_field::UPDATE_FIELD => Ok(mem::transmute(self.payload(0..4)?)),
+            ready::READY => Ok(mem::transmute(self.payload(0..(4 * 1))?)),
             _ => Ok(&[]),
         }
     }
@@ -104,10 +114,10 @@ impl<'a> RawMsg<'a> {
     /// For other message types, just return the bytes blob
     pub fn get_bytes(&self) -> Result<&'a [u8]> {
         match self.typ {
-            create::CREATE => Ok(&self.bytes[(4 * 6)..(self.len as usize - HDR_LENGTH as usize)]),
-            measure::MEASURE => Ok(&self.bytes[8..(self.len as usize - HDR_LENGTH as usize)]),
+            create::CREATE => self.payload((4 * 6)..(self.len as usize - HDR_LENGTH as usize)),
+            measure::MEASURE => self.payload(8..(self.len as usize - HDR_LENGTH as usize)),
             update_field::UPDATE_FIELD => {
-                Ok(&self.bytes[4..(self.len as usize - HDR_LENGTH as usize)])
+                self.payload(4..(self.len as usize - HDR_LENGTH as usize))
             }
             _ => Ok(self.bytes),
         }
